@@ -16,6 +16,7 @@ pub mod c19;
 pub mod c20;
 pub mod c21;
 pub mod c22;
+pub mod c23;
 pub mod c24;
 pub mod c_engine;
 pub mod c_fd;
@@ -47,6 +48,7 @@ pub fn dispatch(id: &str, ctx: &mut ev::Ctx) -> bool {
         "C20" => c20::run(ctx),
         "C21" => c21::run(ctx),
         "C22" => c22::run(ctx),
+        "C23" => c23::run(ctx),
         "C24" => c24::run(ctx),
         _ => return false,
     }
